@@ -331,6 +331,23 @@ def run(ctx):
             "redun/cli.py",
             h.lineno,
         )
+    # ---- C32.10 user data is unpickled only after the user's code has been imported ------------------------------
+    # Inputs, and an existing output, may hold instances of classes defined in the workflow module.  Locally those classes are importable by
+    # construction; in the fresh remote process they are only after oneshot has extracted the code package and imported the script.
+    r10 = ctx.rule("C32.10", "every pickle.load in oneshot_command is dominated by import_script(args.script)", floor=2)
+    imps = [c8.node_of(c) for c in calls_in(one8, shallow=True) if (call_name(c) or "").split(".")[-1] == "import_script"]
+    if not imps:
+        raise AnalysisError("oneshot_command no longer calls import_script", "RedunClient.oneshot_command")
+    for c in calls_in(one8, shallow=True):
+        if call_name(c) in ("pickle.load", "pickle.loads", "pickle_loads", "pickle_load"):
+            r10.check(
+                any(c8.dominates(i, c8.node_of(c)) for i in imps),
+                f"redun/cli.py:RedunClient.oneshot_command:unpickle-after-import:{src(c)[:40]}",
+                f"`{src(c)}` can run before import_script(args.script): in a fresh remote process a value whose class is defined in the workflow module cannot be unpickled yet "
+                "(ModuleNotFoundError), the handler writes an error file and deletes the valid output -- a retried job fails where a local call returns the value",
+                "redun/cli.py",
+                c.lineno,
+            )
     # ---- C32.9 (the obligations of C11.2, which this property depends on as well) ----
     from ..report import BorrowCtx
     from . import C11 as _borrowed_C11
